@@ -920,12 +920,47 @@ impl<'a> BenchContext<'a> {
             //
             // This ensures work external to the timed section does not affect
             // the timing of other threads.
+            // If this thread unwinds out of the sample (the benchmarked function
+            // or the input generator panics), it keeps its remaining barrier
+            // appointments so that the other threads are not left waiting
+            // forever. The panic then surfaces on the main thread as a
+            // missing sample.
+            struct KeepAppointments<'a> {
+                barrier: Option<&'a Barrier>,
+                remaining: std::cell::Cell<u8>,
+            }
+
+            impl Drop for KeepAppointments<'_> {
+                fn drop(&mut self) {
+                    if let (Some(barrier), true) =
+                        (self.barrier, std::thread::panicking())
+                    {
+                        for _ in 0..self.remaining.get() {
+                            barrier.wait();
+                        }
+                    }
+                }
+            }
+
+            let appointments = KeepAppointments {
+                barrier,
+                // Two waits at the start if alloc info is available (one
+                // otherwise) and one wait at the end.
+                remaining: std::cell::Cell::new(
+                    2 + ThreadAllocInfo::current().is_some() as u8,
+                ),
+            };
+
             let sync_threads = |is_start: bool| {
-                sync_impl(barrier, is_start);
+                sync_impl(barrier, is_start, &appointments.remaining);
 
                 // Monomorphize implementation to reduce code size.
                 #[inline(never)]
-                fn sync_impl(barrier: Option<&Barrier>, is_start: bool) {
+                fn sync_impl(
+                    barrier: Option<&Barrier>,
+                    is_start: bool,
+                    remaining: &std::cell::Cell<u8>,
+                ) {
                     // Ensure benchmarked section has a `ThreadAllocInfo`
                     // allocated for the current thread and clear previous info.
                     let alloc_info = if is_start {
@@ -940,6 +975,7 @@ impl<'a> BenchContext<'a> {
                     if let Some(barrier) = barrier {
                         barrier.wait();
                     }
+                    remaining.set(remaining.get().saturating_sub(1));
 
                     if let Some(mut alloc_info) = alloc_info {
                         // SAFETY: We have exclusive access.
@@ -951,6 +987,7 @@ impl<'a> BenchContext<'a> {
                         if let Some(barrier) = barrier {
                             barrier.wait();
                         }
+                        remaining.set(remaining.get().saturating_sub(1));
                     }
                 }
             };
